@@ -250,10 +250,12 @@ theorem step_engine (s : Api) (op : Op) : (step s op).1.engine = s.engine := by
   | clear =>
     simp only [step, clear]
     split
-    · split
-      · rw [setIoRatio_engine]
-      · rfl
     · rfl
+    · split
+      · split
+        · rw [setIoRatio_engine]
+        · rfl
+      · rfl
   | error => rfl
   | engine => simp only [step]; split <;> rfl
 
